@@ -2,15 +2,19 @@ package router
 
 import "github.com/gammazero/nexus/v3/wamp"
 
+// pptOptionsToDetails copies the payload passthru options into details. The
+// options come from the peer, so values of the wrong type are ignored.
 func pptOptionsToDetails(options wamp.Dict, details wamp.Dict) {
-	details[wamp.OptPPTScheme] = options[wamp.OptPPTScheme].(string)
-	if val, ok := options[wamp.OptPPTSerializer]; ok {
-		details[wamp.OptPPTSerializer] = val.(string)
+	if val, ok := options[wamp.OptPPTScheme].(string); ok {
+		details[wamp.OptPPTScheme] = val
 	}
-	if val, ok := options[wamp.OptPPTCipher]; ok {
-		details[wamp.OptPPTCipher] = val.(string)
+	if val, ok := options[wamp.OptPPTSerializer].(string); ok {
+		details[wamp.OptPPTSerializer] = val
 	}
-	if val, ok := options[wamp.OptPPTKeyId]; ok {
-		details[wamp.OptPPTKeyId] = val.(string)
+	if val, ok := options[wamp.OptPPTCipher].(string); ok {
+		details[wamp.OptPPTCipher] = val
+	}
+	if val, ok := options[wamp.OptPPTKeyId].(string); ok {
+		details[wamp.OptPPTKeyId] = val
 	}
 }
